@@ -152,7 +152,7 @@ theorem PI_unitVariant (o : Options) (ext : Ext) (h0 : o.overwrites = []) (nm : 
     simp only [Field.dataType] at hex
     rw [hits_union_unit _ hg1] at hex
     have hu : isUnionDT cdt = false := by
-      simpa [exclAny, nullAtEnum, dateLookalike, u64AboveI64, dataLessNewtype, unitStructAtValue] using hex
+      simpa [exclAny, nullAtEnum, dateLookalike, u64AboveI64, dataLessNewtype] using hex
     rw [absorb] at h4
     have hn : c2.nullable = true := hsc2.keeps.1 (ensure_primitive_null_nullable o hwvt.wf h4)
     have hnull := interpNull_of_nullable h0 hg2 hn hu
